@@ -400,7 +400,7 @@ def gen_bundle(rng, flags=None, crc_types=None, admin=None, n_ext=None, eid_kind
         data = gen_data(rng, payload_sizes)
     spec['blocks'].append(dict(type=BLOCK_PAYLOAD, num=1, flags=rng.choice([0, 0, 0, 1, 4]), crc_type=crc_for(1 + n_ext),
                                data=data.hex(), crc=None, view=view))
-    if not admin and len(data) > 2000:
+    if not admin and len(data) > 5000:
         seed = rng.randrange(2 ** 31)
         spec['blocks'][-1]['mk'] = [seed, len(data)]
         spec['blocks'][-1]['data'] = mkdata(seed, len(data)).hex()
